@@ -29,8 +29,8 @@ type GenConfig struct {
 	// ExclCount counts draws that were redirected because of Excl.
 	ExclCount map[string]int
 
-	// NamePrefix makes definition names unique across packages of one layout.
-	NamePrefix string
+	// RootNamespace of the main package (default "Main").
+	RootNamespace string
 }
 
 func DefaultGen() GenConfig {
@@ -184,7 +184,7 @@ func (g *gen) union(depth int) *Type {
 	for len(u.Cases) < n+btoi(withNull) && tries < 40 {
 		tries++
 		c := g.scalarForUnionCase(depth, explicit)
-		if g.cfg.Runtime && !g.unionCaseOK(c) {
+		if c.Kind == KParam && g.cfg.excluded("union-with-param-case") {
 			continue
 		}
 		key := g.env.canonSafe(c)
@@ -316,6 +316,44 @@ func (g *gen) array(depth int) *Type {
 		}
 		return a
 	}
+}
+
+// closedOK reports whether a type without free type parameters avoids every shape that is
+// switched off through cfg.Excl (known findings). Types with free parameters are checked
+// where they get instantiated.
+func (g *gen) closedOK(t *Type) bool {
+	if len(g.cfg.Excl) == 0 {
+		return true
+	}
+	bad := ""
+	g.env.WalkInstantiated(t, func(x *Type) {
+		if bad != "" {
+			return
+		}
+		for name, pred := range ShapeSwitches {
+			if g.cfg.Excl[name] && pred(g.env, x) {
+				bad = name
+			}
+		}
+	})
+	if bad != "" {
+		if g.cfg.ExclCount != nil {
+			g.cfg.ExclCount[bad]++
+		}
+		return false
+	}
+	return true
+}
+
+// top draws the complete type of a field, step or alias, honouring the exclusion switches.
+func (g *gen) top(depth int) *Type {
+	for tries := 0; tries < 6; tries++ {
+		t := g.typ(depth)
+		if g.closedOK(t) {
+			return t
+		}
+	}
+	return Prim("int32")
 }
 
 // typ draws a type expression.
@@ -542,7 +580,7 @@ func (g *gen) recordDef(name string) *Def {
 	n := 1 + g.intn("recFields", 5)
 	names := g.memberNames(n+len(d.TypeParams), fieldWords)
 	for i := 0; i < n; i++ {
-		d.Fields = append(d.Fields, Field{Name: names[i], Type: g.typ(1), Comment: g.comment("fieldComment")})
+		d.Fields = append(d.Fields, Field{Name: names[i], Type: g.top(1), Comment: g.comment("fieldComment")})
 	}
 	// every type parameter must be used
 	usedP := paramsUsed(d)
@@ -596,7 +634,13 @@ func (g *gen) aliasDef(name string) *Def {
 	}
 	g.params = d.TypeParams
 	g.used = map[string]bool{}
-	d.Type = g.typ(1)
+	d.Type = g.top(1)
+	if g.cfg.Excl["generic-identity-alias"] && d.Type.Kind == KParam {
+		if g.cfg.ExclCount != nil {
+			g.cfg.ExclCount["generic-identity-alias"]++
+		}
+		d.Type = Optional(d.Type)
+	}
 	for _, p := range d.TypeParams {
 		if !paramsUsed(d)[p] {
 			switch g.intn("aliasWrap", 3) {
@@ -618,9 +662,11 @@ func (g *gen) protocolDef(name string) *Def {
 	n := 1 + g.intn("steps", g.cfg.MaxSteps)
 	names := g.memberNames(n, fieldWords)
 	for i := 0; i < n; i++ {
-		t := g.typ(1)
+		t := g.top(1)
 		if g.chance("isStream", 40) {
-			t = Stream(t)
+			if s := Stream(t); g.closedOK(s) {
+				t = s
+			}
 		}
 		d.Fields = append(d.Fields, Field{Name: names[i], Type: t, Comment: g.comment("stepComment")})
 	}
@@ -652,7 +698,11 @@ func (g *gen) defs(p *Package, n int, prefix string) {
 // GenPackage draws a valid package (with imports) by construction.
 func GenPackage(t *rapid.T, cfg *GenConfig) *Package {
 	uid := 0
-	root := &Package{Namespace: "Main", DirName: "main"}
+	rootNs := cfg.RootNamespace
+	if rootNs == "" {
+		rootNs = "Main"
+	}
+	root := &Package{Namespace: rootNs, DirName: "main"}
 	g := &gen{t: t, cfg: cfg, unionID: &uid}
 	g.env = NewEnv(root)
 
